@@ -226,7 +226,12 @@ pub fn build_scenario(
                 Snap::load(&dir).store(&probe_dir);
                 let icpt = Icpt::new(&probe_dir, Plan::none());
                 let out = run::do_backup(&probe_dir, &srcs.dir_for(t), o, Some(&icpt), Flavor::Current);
-                assert!(out.clean_success(), "scenario {name}: probe backup failed");
+                // (a damaged basis, e.g. a head-less band directory, is legitimately reported to the monitor)
+                assert!(
+                    out.ok_stats().is_some_and(|s| s.errors == 0),
+                    "scenario {name}: probe backup failed: {}",
+                    out.describe()
+                );
                 let log = icpt.take_log();
                 let muts: Vec<usize> = log.iter().filter(|r| r.is_mutating()).map(|r| r.idx).collect();
                 let k = *muts
@@ -324,6 +329,31 @@ pub fn standard_scenarios(srcs: &SrcCache) -> Vec<Scenario> {
                 Step::Backup(t2.clone(), s.clone()),
                 Step::Backup(t2.clone(), s.clone()),
                 Step::Delete(vec![1]),
+            ],
+            t3.clone(),
+            s.clone(),
+            srcs,
+        ),
+        // a head-less band directory in the middle of the stitch chain (a backup killed between
+        // mkdir and BANDHEAD), below an interrupted band that has hunks
+        build_scenario(
+            "S9-b0(T1)+b1(T2)+headless-b2+b3(T2,incomplete)+resume-T2",
+            &[
+                Step::Backup(t1.clone(), s.clone()),
+                Step::Backup(t2.clone(), s.clone()),
+                Step::CrashedBackup(t2.clone(), s.clone(), 1),
+                Step::CrashedBackup(t2.clone(), s.clone(), 7),
+            ],
+            t2.clone(),
+            s.clone(),
+            srcs,
+        ),
+        build_scenario(
+            "S10-b0(T1)+headless-b1+b2(T3,incomplete)+T3",
+            &[
+                Step::Backup(t1.clone(), s.clone()),
+                Step::CrashedBackup(t3.clone(), s.clone(), 0),
+                Step::CrashedBackup(t3.clone(), s.clone(), 8),
             ],
             t3.clone(),
             s.clone(),
